@@ -11,21 +11,146 @@ package seqio
 // residue k (0-based) sits at byte opos(k); a block of n residues has olen(n) bytes.
 // Each line is a 9-column index, then up to six groups " " + ten residues, then "\n".
 
-//@ spec func opos(k int) int = 76*(k/60) + 10 + 11*((k%60)/10) + k%10
-//@ spec func olen(n int) int = ite(n == 0, 0, opos(n-1) + 2)
+//@ spec opaque opos(k int) int = 76*(k/60) + 10 + 11*((k%60)/10) + k%10
+//@ spec opaque olen(n int) int = ite(n == 0, 0, opos(n-1) + 2)
 
 //@ func toOriginLength(length int) (r int)
 //@   prop C16 C07
+//@   reveal opos olen
 //@   requires 0 <= length && length <= 1099511627776
 //@   ensures r == olen(length)
 
+// nres(l): the residue count of a block of l bytes, when l is a block length (Skolem
+// witness for "l == olen(n) for some n").
+//@ spec func nres(l int) int uninterpreted
+// nres is the inverse of olen on block lengths (olen is injective: lemma olenMonotone).
+//@ axiom nresInverse: forall n: 0 <= n ==> nres(olen(n)) == n
+
 //@ func fromOriginLength(length int) (r int)
 //@   prop C16
+//@   reveal opos olen
 //@   requires 0 <= length && length <= 1099511627776
 //@   ensures forall n: 0 <= n && length == olen(n) ==> r == n
+//@   ensures witness: 0 <= nres(length) && length == olen(nres(length)) ==> r == nres(length)
 
 // olen is strictly increasing, so a block length determines the residue count.
+// Layout arithmetic used by the loop proofs (each proved separately, then instantiated with `use`).
+//@ lemma oposLine(i, j int)
+//@   prop C16
+//@   requires 0 <= i && i%60 == 0 && 0 <= j && j < 60 && j%10 == 0
+//@   ensures opos(i+j) == 76*(i/60) + 10 + 11*(j/10)
+//@ lemma oposGroup(g, k int)
+//@   prop C16
+//@   requires 0 <= g && g%10 == 0 && g <= k && k < g+10
+//@   ensures opos(k) == opos(g) + (k - g)
+//@ lemma oposMonotone(a, b int)
+//@   prop C16
+//@   requires 0 <= a && a <= b
+//@   ensures opos(a) <= opos(b) && (a < b ==> opos(a) < opos(b))
+
+//@ lemma olenZero(z int)
+//@   prop C16
+//@   ensures olen(0) == 0
+//@ lemma olenPos(n int)
+//@   prop C16
+//@   requires 1 <= n
+//@   ensures olen(n) == opos(n-1) + 2 && 12 <= olen(n)
+//@ lemma olenLines(i int)
+//@   prop C16
+//@   requires 0 <= i && i%60 == 0
+//@   ensures olen(i) == 76*(i/60)
+
+//@ lemma olenBound(n int)
+//@   prop C16
+//@   requires 0 <= n
+//@   ensures 0 <= olen(n) && olen(n) <= 2*n + 12
+
 //@ lemma olenMonotone(a, b int)
 //@   prop C16
 //@   requires 0 <= a && a < b
 //@   ensures olen(a) < olen(b)
+
+// dig9(v, k) (built in): byte k of v printed right-aligned in 9 columns ("%9d"), 0 <= v < 10^9.
+
+// olay(p, n, b): the byte that the ORIGIN layout of the n residues p puts at offset b:
+// columns 0..8 of each 76-byte line hold the index of the line's first residue, then six
+// groups of " " + ten residues; "\n" closes every line (the last one may be shorter).
+//@ spec macro olay(p []byte, n int, b int) int =
+//@   ite(b%76 < 9, dig9(60*(b/76)+1, b%76),
+//@   ite(b%76 == 75 || b == olen(n)-1, '\n',
+//@   ite((b%76-9)%11 == 0, ' ',
+//@       int(p[60*(b/76) + 10*((b%76-9)/11) + (b%76-9)%11 - 1]))))
+
+//@ func NewOrigin(p []byte) (o *Origin)
+//@   prop C16 C11
+//@   reveal opos olen
+//@   requires len(p) < 999999940
+//@   ensures fresh(o) && fresh(o.Buffer) && !o.Parsed && len(o.Buffer) == olen(len(p))
+//@   guarantee layout: forall b in 0..olen(len(p)): int(o.Buffer[b]) == olay(p, len(p), b)
+//@   ensures residues: forall k in 0..len(p): o.Buffer[opos(k)] == p[k]
+//@   assigns nothing
+//@   loop 1: invariant i%60 == 0 && 0 <= i && i <= length+59 && length == len(p)
+//@   loop 1: invariant fresh(q) && len(q) == olen(length) && offset == olen(min(i, length))
+//@   loop 1: invariant forall b in 0..offset: int(q[b]) == olay(p, length, b)
+//@   loop 1: decreases length + 60 - i
+//@   loop 2: invariant j%10 == 0 && 0 <= j && j <= 60 && (j > 0 ==> i+j-10 < length)
+//@   loop 2: invariant fresh(q) && len(q) == olen(length) && offset == 76*(i/60) + 9 + j/10 + (min(i+j, length) - i)
+//@   loop 2: invariant offset == ite(j == 0, 76*(i/60) + 9, olen(min(i+j, length)) - 1)
+//@   loop 2: invariant forall b in 0..offset: int(q[b]) == olay(p, length, b)
+//@   loop 2: decreases 60 - j
+
+//@ func (o *Origin) Bytes() (r []byte)
+//@   prop C16 C11
+//@   requires !isnil(o) && len(o.Buffer) <= 1099511627776
+//@   requires !o.Parsed ==> 0 <= nres(len(o.Buffer)) && len(o.Buffer) == olen(nres(len(o.Buffer)))
+//@   use olenZero(0)
+//@   use olenPos(nres(len(o.Buffer)))
+//@   ensures parsed: old(o.Parsed) ==> sameslice(r, old(o.Buffer)) && o.Parsed && sameslice(o.Buffer, old(o.Buffer))
+//@   ensures decoded: !old(o.Parsed) ==> len(r) == nres(old(len(o.Buffer))) && (forall k in 0..len(r): r[k] == old(o.Buffer[opos(k)]))
+//@   ensures !old(o.Parsed) && len(r) > 0 ==> fresh(r) && o.Parsed && sameslice(o.Buffer, r)
+//@   assigns o
+//@   loop 1: invariant i%60 == 0 && 0 <= i && i <= length+59 && 1 <= length && length == nres(len(p)) && len(p) == olen(length)
+//@   loop 1: invariant fresh(q) && len(q) == length && offset == min(i, length) && start == olen(min(i, length))
+//@   loop 1: invariant forall k in 0..offset: q[k] == old(o.Buffer[opos(k)])
+//@   loop 1: use olenLines(i)
+//@   loop 1: use olenLines(i+60)
+//@   loop 1: decreases length + 60 - i
+//@   loop 2: invariant j%10 == 0 && 0 <= j && j <= 60 && (j > 0 ==> i+j-10 < length)
+//@   loop 2: invariant fresh(q) && len(q) == length && offset == min(i+j, length)
+//@   loop 2: invariant start == ite(i+j <= length, 76*(i/60) + 9 + 11*(j/10), opos(length-1) + 1)
+//@   loop 2: invariant forall k in 0..offset: q[k] == old(o.Buffer[opos(k)])
+//@   loop 2: use oposLine(i, j)
+//@   loop 2: use oposLine(i, j-10)
+//@   loop 2: use oposGroup(i+j, i+j+9)
+//@   loop 2: use oposGroup(i+j, length-1)
+//@   loop 2: use oposGroup(i+j-10, i+j-1)
+//@   loop 2: use oposMonotone(i+j+9, length-1)
+//@   loop 2: use forall k: oposGroup(i+j, k)
+//@   loop 2: decreases 60 - j
+
+//@ func (o Origin) Len() (n int)
+//@   prop C16
+//@   requires len(o.Buffer) <= 1099511627776
+//@   requires !o.Parsed ==> 0 <= nres(len(o.Buffer)) && len(o.Buffer) == olen(nres(len(o.Buffer)))
+//@   use olenZero(0)
+//@   ensures o.Parsed ==> n == len(o.Buffer)
+//@   ensures !o.Parsed ==> n == nres(len(o.Buffer))
+//@   assigns nothing
+
+// Round trip: formatting residues as a block and decoding the block gives the residues back,
+// and the length reported without decoding is the residue count.
+//@ func lemmaOriginRoundTrip(p []byte) (r []byte, n int)
+//@   prop C16
+//@   requires len(p) < 999999940
+//@   use olenBound(len(p))
+//@   ensures len(r) == len(p) && n == len(p)
+//@   ensures forall k in 0..len(p): r[k] == p[k]
+//@   ensures unchanged(p)
+
+// Ghost lemma functions (compiled only with the tag verif; never called).
+
+func lemmaOriginRoundTrip(p []byte) ([]byte, int) {
+	o := NewOrigin(p)
+	n := o.Len()
+	return o.Bytes(), n
+}
